@@ -605,6 +605,9 @@ def judge(obs, use_executable=False):
                     kind = {" ": "space", "\t": "tab"}.get(was[-1], "other")
                     bad.append(("rotate:plaintext:trailing-whitespace-lost:" + kind,
                                 where + " decrypts to %r, was %r (white space at the end of the plaintext lost)" % (pt_new, was)))
+                elif pt_new in (was.lstrip(WS), was.strip(WS)):
+                    bad.append(("rotate:plaintext:leading-whitespace-lost",
+                                where + " decrypts to %r, was %r (white space at the start of the plaintext lost)" % (pt_new, was)))
                 else:
                     bad.append(("rotate:plaintext:" + cls + tag, where + " decrypts to %r, was %r" % (pt_new, was)))
         # sharing: same partition of positions into shared values
